@@ -18,7 +18,7 @@ Statement forms (tuples):
 Every waiting statement is logged:  L <tick> <fiber> :<label> <result or (:err msg)>.
 """
 
-WAITS = ("sleep", "take", "give", "select", "read", "readt", "write", "writet", "chunk", "pwait", "deadline", "raw")
+WAITS = ("sleep", "take", "give", "select", "read", "readt", "write", "writet", "chunk", "pwait", "twait", "deadline", "raw")
 
 
 def jv(v):
@@ -50,6 +50,11 @@ def emit_wait(st):
         return "(ev/write %sw (string/repeat \"%s\" %d) %s)" % (st[1], st[3], st[2], ms(st[4]))
     if k == "pwait":
         return "(os/proc-wait %s)" % st[1]
+    if k == "twait":
+        # a threaded await whose worker blocks on a FIFO until the driver writes to it (checks/C07.py creates the FIFO)
+        if st[2] == "shell":
+            return '(os/shell "read x < @FIFO:%s@")' % st[1]
+        return '(ev/thread (fn [&] (slurp "@FIFO:%s@")))' % st[1]
     if k == "deadline":
         return "(ev/with-deadline %s %s)" % (ms(st[1]), emit_wait(st[2]))
     if k == "raw":
@@ -77,6 +82,7 @@ class Scenario:
         self.labels = 0
         self.setup = []      # raw janet lines emitted after the object definitions
         self.procflags = {}  # process name -> os/spawn flags (default :p ; :px = raise on non-zero exit status)
+        self.thrs = {}       # threaded call name -> "shell" | "thread"
 
     def chan(self, name, cap=0):
         self.chans[name] = cap
@@ -119,6 +125,9 @@ class Scenario:
                 out.append('%s(ev/cancel %s "%s")' % (ind, "(fiber/root)" if st[1] == fib else st[1], st[2]))
             elif k == "goself":
                 out.append("%s(ev/go (fiber/root))" % ind)
+            elif k == "finish":
+                out.append('%s(spit "@FIFO:%s@" "x\\n")' % (ind, st[1]))
+                out.append("%s(verif/log :settle (verif/settle 1))" % ind)
             elif k == "closew":
                 out.append("%s(ev/close %sw)" % (ind, st[1]))
             elif k == "closer":
@@ -203,6 +212,8 @@ class Scenario:
                 return ["writet", st[1] + "w", str(st[2]), str(ms1000(st[4]))]
             if k == "pwait":
                 return ["pwait", st[1]]
+            if k == "twait":
+                return ["twait", st[1]]
             raise ValueError(st)
 
         def enc(stmts, name):
@@ -221,6 +232,8 @@ class Scenario:
                     toks.append("cancel %s %s" % (st[1], st[2]))
                 elif k == "goself":
                     toks.append("goself")
+                elif k == "finish":
+                    toks.append("finish %s" % st[1])
                 elif k == "block":
                     toks.append("enter")
                     sub = []
@@ -251,6 +264,8 @@ class Scenario:
             lines.append("stream %sw" % p)
         for k in self.procs:
             lines.append("proc %s %s" % (k, self.procflags.get(k, "p")))
+        for t, kind in self.thrs.items():
+            lines.append("thr %s %s" % (t, kind))
         for kl in klines:
             lines.append("k" + kl[1:])
         for name, toks in fibers:
@@ -265,7 +280,7 @@ class Scenario:
 # The A x B x abandon x fire matrix
 # =====================================================================================================
 
-A_KINDS = ["sleep", "take", "give", "seltake", "selgive", "read", "readT", "write", "pwait", "pwaitx", "dl"]
+A_KINDS = ["sleep", "take", "give", "seltake", "selgive", "read", "readT", "write", "pwait", "pwaitx", "shell", "thread", "dl"]
 # calls that fail early with an error although they carry a timeout / deadline: (name, janet expression)
 BAD_CALLS = [
     ("read-neg", '(ev/read pAr -1 @"" 0.015)'), ("read-kw", '(ev/read pAr :bogus @"" 0.015)'), ("read-float", '(ev/read pAr 1.5 @"" 0.015)'),
@@ -299,6 +314,8 @@ def a_variants():
             abandons.append("timeout")
         if a == "dl":
             abandons = ["cancel", "bodydone", "expired"]
+        if a in ("shell", "thread"):
+            abandons = ["cancel", "deadline"]
         if a == "sleep":
             abandons = ["cancel", "cancel0", "deadline"]
         if a == "readT":
@@ -314,6 +331,7 @@ def a_variants():
             "write": ["drain", "closer", "closew"],
             "pwait": ["exit"],
             "pwaitx": ["exit"],
+            "shell": ["finish"], "thread": ["finish"],
             "dl": ["pass"],
         }[a]
         if a in ("seltake", "selgive"):
@@ -372,6 +390,10 @@ def build(sid, a, ab, fi, b, extra=None):
         # the process was spawned with :x — its non-zero exit status is delivered as an ERROR (janet_cancel branch of the callback)
         s.proc("kA", "px")
         A = ("pwait", "kA")
+    elif a in ("shell", "thread"):
+        # os/shell resp. ev/thread: janet_ev_threaded_await; the worker finishes when the driver writes to its FIFO
+        s.thrs["tA"] = a
+        A = ("twait", "tA", a)
     elif a == "dl":
         s.chan("cZ", 1)
         A = ("deadline", 15, ("take", "cZ"))
@@ -534,6 +556,8 @@ def build(sid, a, ab, fi, b, extra=None):
         M.append(("spawn", "H", [("deadline", 3, ("chunk", "pA", 70000))]))
     elif fi == "exit":
         M.append(("exitproc", "kA"))
+    elif fi == "finish":
+        M.append(("finish", "tA"))
     elif fi == "pass":
         pass
     M.append(("sleep", 10))        # t = 30 (35)
